@@ -1,2 +1,16 @@
 #!/bin/sh
-exit 0
+# Build the framework from files on disk only (offline): translator, tables, the whole Coq development.
+set -e
+cd "$(dirname "$0")"
+export GOFLAGS=-mod=mod GOPROXY=off GOSUMDB=off GOTOOLCHAIN=local
+python3 - <<'PY'
+import sys, os
+sys.path.insert(0, "checks")
+import lib
+srcs = lib.translate()
+print("translator: %d symbols" % len(srcs))
+lib.coq_project()
+rc, o = lib.sh(["make", "-j%d" % lib.NCPU], cwd=lib.COQ, timeout=7000)
+print(o[-3000:])
+sys.exit(rc)
+PY
